@@ -175,7 +175,12 @@ func ZZ_C17_block() {
 		zz.Reach("nothing-to-block")
 		return
 	}
+	held := *first // what the caller was told: in an admissible zone, with free addresses
 	pool.Block(first.ID)
+	// no side effects on callers: the object handed out is read without a lock by
+	// whoever received it (and by concurrent selections); Block publishes a new
+	// entry instead of rewriting the one that is out there
+	zz.Assert(*first == held, "blocking a vSwitch does not rewrite an object already handed to a caller")
 	ids2 := make([]string, n)
 	copy(ids2, zzIDs[:n])
 	second, _ := pool.GetOne(context.Background(), cloud, "z1", ids2, zzPolicyOpts(policy, ignoreZone)...)
